@@ -473,6 +473,11 @@ fn size_of_trailer(t: &Dictionary) -> u64 {
     t.get("Size").and_then(|p| p.as_u32().ok()).unwrap_or(0) as u64
 }
 
+static SCAN_UNLOADED: std::sync::atomic::AtomicBool = std::sync::atomic::AtomicBool::new(false);
+fn opts_scan_unloaded() -> bool {
+    SCAN_UNLOADED.load(Ordering::SeqCst)
+}
+
 fn walk_storage<OC, SC>(bytes: &[u8], opts: WalkOpts, oc: OC, sc: SC, st: &mut Stats)
 where
     OC: Cache<Result<AnySync, Arc<PdfError>>>,
@@ -485,7 +490,23 @@ where
     };
     let trailer = match st.res("storage.load_storage_and_trailer", storage.load_storage_and_trailer()) {
         Some(t) => t,
-        None => return,
+        None => {
+            // the table could not be read: the recovery scan and the version are still there for the caller
+            // (with `with_scan`), and they do their own arithmetic on `startxref` and the header position
+            if opts_scan_unloaded() {
+                st.res("storage.version", storage.version());
+                let mut items = 0usize;
+                for item in storage.scan() {
+                    items += 1;
+                    match item {
+                        Ok(_) => st.hit("scan.unloaded.item", true),
+                        Err(_) => { st.hit("scan.unloaded.item", false); break; }
+                    }
+                    if items > CAP { break; }
+                }
+            }
+            return;
+        }
     };
     st.res("storage.version", storage.version());
     let n = size_of_trailer(&trailer).min(opts.max_objects);
@@ -611,6 +632,7 @@ pub fn maybe_child(replay: &Value) {
     let time_limit_ms = replay["time_limit_ms"].as_u64().unwrap_or(10_000);
     let mem_limit_mb = replay["mem_limit_mb"].as_u64().unwrap_or(1024);
     let with_scan = replay["with_scan"].as_bool().unwrap_or(true);
+    SCAN_UNLOADED.store(with_scan, Ordering::SeqCst);
     let first = replay["first"].as_u64().unwrap_or(0) as usize;
     unsafe {
         let lim = RLimit { cur: mem_limit_mb << 20, max: mem_limit_mb << 20 };
